@@ -669,7 +669,7 @@ type c08SignOutcome struct {
 	stats   map[string]int
 }
 
-var c08SignBudget = time.Duration(verifkit.EnvInt("VERIF_C08_SIGN_BUDGET_S", 360)) * time.Second
+var c08SignBudget = time.Duration(verifkit.EnvInt("VERIF_C08_SIGN_BUDGET_S", 240)) * time.Second
 
 // c08Sign runs signing.Execute for every member of the subset with the
 // arguments signingExecutor.sign derives from the stored signer.
